@@ -198,8 +198,10 @@ inline void t0_put() {
 
 // ---------------------------------------------------------------------------------------------- T1(15): border split
 // put of an absent key into a FULL root border: the node splits, a new interior root appears.  Map semantics through
-// the probe, structure through RI, C12: exactly the old border (modified) and the new border (created) change version.
-template<unsigned MAP, unsigned SYMMASK>
+// the probe key (C02), exactly the old border (modified) and the new border (created) change version (C12), light
+// structural checks (C08); the two neighbours of the split point (ranks 7, 8) are symbolic, the rest concrete fillers.
+// PART selects which group of assertions this entry point carries (the groups are separate queries).
+template<unsigned MAP, unsigned SYMMASK, int PART>
 inline void t1_put_split() {
     constexpr unsigned N = 15;
     bstate<N> st;
@@ -213,48 +215,55 @@ inline void t1_put_split() {
     int found = ref_find(st, x.ks, x.kl);
     int qfound = ref_find(st, x.qs, x.ql);
     yk_assume(found < 0); // the overwrite / unique cases do not depend on fullness (covered at n <= 3)
-    YK_REACH();
     char nv = (char) yk_nondet_u8();
     char* created = nullptr;
     inserted_node_info ini{nullptr, nullptr};
     node_version64_body v0 = st.node->get_stable_version();
     status rc = put<char>(s.tok(), &ti, sv(x.k), &nv, false, 1, &created, static_cast<value_align_type>(1), &ini);
-    YK_REACH();
     YK_ASSERT(rc == status::OK);
     base_node* root = ti.load_root_ptr();
     YK_ASSERT(root != nullptr && root != st.node && !root->get_version_border());
     auto* in = static_cast<interior_node*>(root);
-    YK_ASSERT(ri_interior_of_borders(in, true, nullptr, 2));
-    YK_ASSERT(in->get_child_at(0) == st.node);
     auto* nb = static_cast<border_node*>(in->get_child_at(1));
-    YK_ASSERT(st.node->get_permutation_cnk() + nb->get_permutation_cnk() == 16);
-    // C12
-    YK_ASSERT(ini.modified_nvp == st.node->get_version_ptr() && ini.created_nvp == nb->get_version_ptr());
-    node_version64_body v1 = st.node->get_stable_version();
-    YK_ASSERT(v1.get_vsplit() == ((v0.get_vsplit() + 1U) & M29)); // the split is visible in the old node's version
-    YK_ASSERT(created != nullptr && *created == nv);
-    // probe
-    std::pair<char*, std::size_t> out{nullptr, 0};
-    status g = get<char>(&ti, sv(x.q), out);
-    if (x.qs == x.ks && x.ql == x.kl) {
-        YK_ASSERT(g == status::OK && out.first == created && out.second == 1);
+    if (PART == 0) { // structure + C12
+        YK_ASSERT(in->get_n_keys() == 1 && in->get_child_at(0) == st.node && nb != nullptr && in->get_child_at(2) == nullptr);
+        YK_ASSERT(in->get_version_root() && in->get_parent() == nullptr);
+        node_version64_body vi = in->get_version();
+        YK_ASSERT(ri_version_clean(vi) && !vi.get_deleted());
+        YK_ASSERT(st.node->get_parent() == in && nb->get_parent() == in);
+        YK_ASSERT(!st.node->get_version_root() && !nb->get_version_root());
+        YK_ASSERT(ri_version_clean(st.node->get_version()) && ri_version_clean(nb->get_version()));
+        YK_ASSERT(st.node->get_next() == nb && nb->get_prev() == st.node && nb->get_next() == nullptr && st.node->get_prev() == nullptr);
+        YK_ASSERT(st.node->get_permutation_cnk() + nb->get_permutation_cnk() == 16);
+        // the separator is the first key of the right node and bounds both sides
+        std::size_t r0 = nb->get_permutation().get_index_of_rank(0);
+        YK_ASSERT(in->get_key_slice_at(0) == nb->get_key_slice_at(r0) && in->get_key_length_at(0) == nb->get_key_length_at(r0));
+        std::size_t ll = st.node->get_permutation().get_index_of_rank(st.node->get_permutation_cnk() - 1U);
+        YK_ASSERT(ref_lt(st.node->get_key_slice_at(ll), st.node->get_key_length_at(ll), in->get_key_slice_at(0), in->get_key_length_at(0)));
+        // C12
+        YK_ASSERT(ini.modified_nvp == st.node->get_version_ptr() && ini.created_nvp == nb->get_version_ptr());
+        node_version64_body v1 = st.node->get_stable_version();
+        YK_ASSERT(v1.get_vsplit() == ((v0.get_vsplit() + 1U) & M29));
+        YK_ASSERT(created != nullptr && *created == nv);
         YK_REACH();
-    } else {
-        YK_ASSERT(g == (qfound >= 0 ? status::OK : status::WARN_NOT_EXIST));
-        if (qfound >= 0) {
-            YK_ASSERT(out.first == static_cast<char*>(value::get_body(st.e[qfound].val)) && out.second == 1);
+    } else { // map semantics through the probe key
+        std::pair<char*, std::size_t> out{nullptr, 0};
+        status g = get<char>(&ti, sv(x.q), out);
+        if (x.qs == x.ks && x.ql == x.kl) {
+            YK_ASSERT(g == status::OK && out.first == created && out.second == 1);
             YK_REACH();
+        } else {
+            YK_ASSERT(g == (qfound >= 0 ? status::OK : status::WARN_NOT_EXIST));
+            if (qfound >= 0) {
+                YK_ASSERT(out.first == static_cast<char*>(value::get_body(st.e[qfound].val)) && out.second == 1);
+                YK_REACH();
+            }
         }
+        // the new key sits exactly at the split point with the same slice as its right neighbour
+        if (ref_lt(st.e[7].slice, st.e[7].len, x.ks, x.kl) && ref_lt(x.ks, x.kl, st.e[8].slice, st.e[8].len) && st.e[8].slice == x.ks &&
+            x.qs == x.ks && x.ql == x.kl)
+            YK_REACH();
     }
-    // the new key may land on either side, in particular exactly at the split point (rank 8)
-    bool left = false;
-    for (unsigned i = 0; i < 15; ++i) {
-        unsigned sl = (st.node->get_permutation().get_body() >> (4 * (i + 1))) & 15U;
-        if (i < st.node->get_permutation_cnk() && st.node->get_key_slice_at(sl) == x.ks && st.node->get_key_length_at(sl) == x.kl) left = true;
-    }
-    if (left) YK_REACH();
-    if (!left) YK_REACH();
-    if (ref_lt(st.e[7].slice, st.e[7].len, x.ks, x.kl) && ref_lt(x.ks, x.kl, st.e[8].slice, st.e[8].len) && st.e[8].slice == x.ks) YK_REACH();
 }
 } // namespace
 
@@ -273,9 +282,9 @@ YK_ENTRY(H_t1_put_n14, (t1_put<14, 1>()))
 YK_ENTRY(H_t0_put, (t0_put<false>()))
 YK_ENTRY(H_t0d_put, (t0_put<true>()))
 // symbolic entries: the two neighbours of the split point (ranks 7, 8); the rest concrete fillers
-YK_ENTRY(H_t1_put_split, (t1_put_split<0, 0x0180>()))
-YK_ENTRY(H_t1_put_split_scr, (t1_put_split<1, 0x0180>()))
-YK_ENTRY(H_t1_put_split_wide, (t1_put_split<0, 0x03c1>()))
+YK_ENTRY(H_t1_split_struct, (t1_put_split<0, 0x0180, 0>()))
+YK_ENTRY(H_t1_split_probe, (t1_put_split<0, 0x0180, 1>()))
+YK_ENTRY(H_t1_split_probe_scr, (t1_put_split<1, 0x0180, 1>()))
 
 // ---------------------------------------------------------------------------------------------- C05 (get part)
 // a get that reported WARN_NOT_EXIST with a checked version, followed by the real insert of that absent key: the
